@@ -14,6 +14,7 @@ import (
 	"fmt"
 	"net"
 	"os"
+	"sort"
 	"strconv"
 	"strings"
 	"sync"
@@ -1094,6 +1095,149 @@ func vfBudget(line string) time.Duration {
 	return 20 * time.Second
 }
 
+// multi <op>...: SEVERAL control connections in one LNS Component, with keys that differ in exactly one component:
+// peers A=10.0.0.2 B=10.0.0.3 C=10.0.1.2 D=10.1.0.2 E=11.0.0.2, peer-assigned tunnel ids 99, 355 (same low byte), 25443.
+// (Our local tunnel ids are allocated per peer, so tunnels of different peers share local ids.)
+//   q:<peer>:<aid>        SCCRQ (first or a copy: Ns 0) from that peer with that Assigned Tunnel ID
+//   h:<peer>:<aid>        the next in-order Hello of that control connection (header: our local id, source: that peer)
+//   i:<peer>:<aid>        the next in-order ICRQ (opens a session);   c:<peer>:<aid>:<sid>  CDN for our session <sid>
+//   s:<peer>:<aid>        the next in-order StopCCN
+//   w:<peer>:<aid>:<src>  the next Hello of that connection but arriving from source <src> (must not reach it)
+// After every op: every registered tunnel as peerIP/peerTunnelID/localID:Nr{session ids}, sorted.
+func vfMultiCase(f []string) string {
+	c := New(logger.Get("l2tp"))
+	local := net.IPv4(10, 0, 0, 1).To4()
+	peers := map[string]net.IP{"A": net.IPv4(10, 0, 0, 2).To4(), "B": net.IPv4(10, 0, 0, 3).To4(), "C": net.IPv4(10, 0, 1, 2).To4(),
+		"D": net.IPv4(10, 1, 0, 2).To4(), "E": net.IPv4(11, 0, 0, 2).To4()}
+	c.SetSendControlFn(func(localIP, peerIP net.IP, lp, pp uint16, h l2tppkt.Header, body []byte) error { return nil })
+	c.SetLNSConfigResolver(func(string) (LNSConfig, bool) {
+		return LNSConfig{LocalHostname: "lns", ReceiveWindowSize: 16, HelloInterval: time.Hour}, true
+	})
+	defer func() {
+		c.mu.RLock()
+		var rs []*tunnelRunner
+		for _, r := range c.runners {
+			rs = append(rs, r)
+		}
+		c.mu.RUnlock()
+		for _, r := range rs {
+			r.Stop()
+		}
+	}()
+	send := func(src net.IP, tid, sid, ns uint16, body []byte) {
+		h := l2tppkt.NewControl(tid, sid, ns, 0)
+		wire := append(h.AppendTo(nil, len(body)), body...)
+		pkt := &dataplane.ParsedPacket{
+			Protocol: models.ProtocolL2TP,
+			IPv4:     &layers.IPv4{SrcIP: src, DstIP: local},
+			UDP:      &layers.UDP{SrcPort: 1701, DstPort: 1701},
+		}
+		pkt.UDP.Payload = wire
+		_ = c.Dispatch(pkt)
+	}
+	find := func(peer net.IP, aid uint16) *Tunnel {
+		c.mu.RLock()
+		defer c.mu.RUnlock()
+		for _, t := range c.tunnels {
+			if t.PeerID == aid && t.PeerIP.Equal(peer) {
+				return t
+			}
+		}
+		return nil
+	}
+	state := func() string {
+		c.mu.RLock()
+		var ts []*Tunnel
+		for _, t := range c.tunnels {
+			ts = append(ts, t)
+		}
+		c.mu.RUnlock()
+		var l []string
+		for _, t := range ts {
+			t.mu.Lock()
+			var ids []int
+			for id := range t.Sessions {
+				ids = append(ids, int(id))
+			}
+			t.mu.Unlock()
+			sort.Ints(ids)
+			var is []string
+			for _, x := range ids {
+				is = append(is, strconv.Itoa(x))
+			}
+			nr := -1
+			if t.Channel != nil {
+				nr = int(t.Channel.Nr())
+			}
+			l = append(l, fmt.Sprintf("%s/%d/%d:%d{%s}", t.PeerIP.String(), t.PeerID, t.LocalID, nr, strings.Join(is, ",")))
+		}
+		sort.Strings(l)
+		if len(l) == 0 {
+			return "-"
+		}
+		return strings.Join(l, ";")
+	}
+	next := map[string]uint16{} // the peer's next Ns per control connection
+	var out []string
+	for _, op := range f {
+		a := strings.Split(op, ":")
+		if len(a) < 3 || peers[a[1]] == nil {
+			out = append(out, "badop")
+			continue
+		}
+		peer := peers[a[1]]
+		aidv, _ := strconv.Atoi(a[2])
+		aid := uint16(aidv)
+		key := a[1] + ":" + a[2]
+		t := find(peer, aid)
+		tid := uint16(0)
+		if t != nil {
+			tid = t.LocalID
+		}
+		switch a[0] {
+		case "q":
+			send(peer, 0, 0, 0, l2tppkt.BuildSCCRQ(l2tppkt.SCCRQParams{HostName: "lac", LocalTunnelID: aid, ReceiveWindowSize: 16, FramingCaps: 3}))
+			if next[key] == 0 {
+				next[key] = 1
+			}
+		case "h", "i", "s", "c", "w":
+			if t == nil {
+				out = append(out, state())
+				continue
+			}
+			src := peer
+			var body []byte
+			sid := uint16(0)
+			switch a[0] {
+			case "h", "w":
+				body = l2tppkt.BuildHello()
+				if a[0] == "w" && len(a) == 4 && peers[a[3]] != nil {
+					src = peers[a[3]]
+				}
+			case "i":
+				body = l2tppkt.BuildICRQ(l2tppkt.ICRQParams{LocalSessionID: 70 + next[key], CallSerialNumber: 1})
+			case "s":
+				body = l2tppkt.BuildStopCCN(aid, 1, 0, "")
+			case "c":
+				if len(a) == 4 {
+					v, _ := strconv.Atoi(a[3])
+					sid = uint16(v)
+				}
+				body = l2tppkt.BuildCDN(50, 1, 0, "")
+			}
+			send(src, tid, sid, next[key], body)
+			if a[0] != "w" {
+				next[key]++
+			}
+		default:
+			out = append(out, "badop")
+			continue
+		}
+		out = append(out, state())
+	}
+	return "multi " + strings.Join(out, " ")
+}
+
 func vfDispGuard(line string) string {
 	done := make(chan string, 1)
 	go func() {
@@ -1105,6 +1249,8 @@ func vfDispGuard(line string) string {
 		f := strings.Fields(line)
 		if len(f) >= 2 && f[0] == "disp" {
 			done <- vfDispCase(f[1:])
+		} else if len(f) >= 2 && f[0] == "multi" {
+			done <- vfMultiCase(f[1:])
 		} else if len(f) >= 1 && f[0] == "e2e" {
 			done <- vfE2ECase(f[1:])
 		} else if len(f) >= 2 && f[0] == "estab" {
